@@ -588,7 +588,34 @@ def strip_all(t):
         return strip_all(t[1])
     if t and t[0] == "call" and len(t[2]) == 1 and is_transparent_call(t[1]):
         return strip_all(t[2][0])
-    return tuple(strip_all(x) for x in t)
+    r = tuple(strip_all(x) for x in t)
+    return _canon(r)
+
+
+import re as _re
+_INT_FROM = _re.compile(r"^core::convert::num::<impl core::convert::From<[ui]\d+> for ([ui]\d+)>::from$")
+_UCHECKED_SUB = _re.compile(r"^core::num::<impl u(\d+|size)>::checked_sub$")
+
+
+_PRIM_BINOP = _re.compile(r"^<&?[ui](\d+|size) as core::ops::(?:bit|arith)::(BitAnd|BitOr|BitXor|Shl|Shr)<&?[ui](\d+|size)>>::\w+$")
+
+
+def _canon(t):
+    """std spellings of one arithmetic fact have one term: `uB::from(x: uA)` is the widening cast `x as uB`; the payload of
+    `a.checked_sub(b)` (unsigned) is `a - b`"""
+    if t and t[0] == "call" and isinstance(t[1], str) and len(t[2]) == 1:
+        m = _INT_FROM.match(t[1])
+        if m:
+            return ("cast", t[2][0], m.group(1))
+    if t and t[0] == "call" and isinstance(t[1], str) and len(t[2]) == 2:
+        m = _PRIM_BINOP.match(t[1])       # `&x & 0x80` on a reference operand is a trait call in MIR
+        if m:
+            return ("bin", m.group(2), t[2][0], t[2][1])
+    if t and t[0] == "f" and len(t) == 3 and t[2] == "0" and isinstance(t[1], tuple) and t[1] and t[1][0] == "dc" and t[1][2] == "Some":
+        c = t[1][1]
+        if isinstance(c, tuple) and c and c[0] == "call" and isinstance(c[1], str) and _UCHECKED_SUB.match(c[1]) and len(c[2]) == 2:
+            return ("bin", "Sub", c[2][0], c[2][1])
+    return t
 
 
 TRANSPARENT = (
@@ -622,6 +649,13 @@ def normalise_cond(fb, term, lab, dty):
         base = t[2]
         inner = t[1]
         vt = variant_table(fb, base)
+        # `a.checked_sub(b)` on unsigned integers is None exactly when a < b
+        if inner and inner[0] == "call" and isinstance(inner[1], str) and _UCHECKED_SUB.match(inner[1]) and len(inner[2]) == 2 and vt:
+            names = set(vt.get(v, str(v)) for v in vals) if kind == "in" else set(vt.values()) - set(vt.get(v, str(v)) for v in vals)
+            if names == {"None"}:
+                return (("bin", "Lt", inner[2][0], inner[2][1]), ("bool", True))
+            if names == {"Some"}:
+                return (("bin", "Lt", inner[2][0], inner[2][1]), ("bool", False))
         # `?` : Try::branch(R) Continue/Break -> R ok / R err
         if inner and inner[0] == "call" and "Try" in inner[1] and inner[1].endswith("branch"):
             inner = inner[2][0] if inner[2] else inner
